@@ -1,7 +1,7 @@
 import LitexModel.Clock.Q
 /-
   Models of `GW1NPLL.compute_config` (gowin_gw1n.py; also GW2APLL which only changes the ranges), of the
-  `GW1NOSC` divider choice and of `GW5APLL.compute_config` (gowin_gw5a.py), over exact rationals.
+  `GW1NOSC` divider choice, over exact rationals (`GW5APLL.compute_config`: see Gw5a.lean).
 
   Results carry a status: `ok` (a config), `rejected` (ValueError), `assertion` (AssertionError), `crash` (any other
   exception, e.g. the ZeroDivisionError of `out_freq / th_div` when `th_div = 0`).
